@@ -582,6 +582,47 @@ func runC16(c *core.Ctx) {
 		}
 	}
 
+	// (3d) a depth far above anything a person types, from each source: the value in effect is the value given,
+	// not a smaller one some layer finds reasonable (a book nested 120000 deep under a limit of 120001 / 200000)
+	{
+		bd := filepath.Join(c.Work, "bigdepth")
+		const deep = 120000
+		var sb strings.Builder
+		for i := deep; i >= 1; i-- {
+			if i == deep {
+				fmt.Fprintf(&sb, "r%06d:\n  x: 1\n", i)
+			} else {
+				fmt.Fprintf(&sb, "r%06d:\n  r%06d: 1\n", i, i+1)
+			}
+		}
+		run.WriteFiles(bd, map[string]string{"deep.yaml": sb.String(), "log.yaml": "", "d1.conf": fmt.Sprintf("[Resolver]\nMaxDepth=%d\n", deep+1), "d2.conf": "[Resolver]\nMaxDepth=200000\n"})
+		for vi, v := range []struct {
+			what string
+			args []string
+			env  map[string]string
+		}{
+			{"--maxdepth 200000", []string{"--maxdepth", "200000"}, nil},
+			{fmt.Sprintf("HR_MAXDEPTH=%d", deep+1), nil, map[string]string{"HR_MAXDEPTH": fmt.Sprint(deep + 1)}},
+			{"MaxDepth=200000 in the configuration file", []string{"--config", "d2.conf"}, nil},
+			{fmt.Sprintf("--maxdepth %d over MaxDepth=200000 in the configuration file (must fail)", deep), []string{"--config", "d2.conf", "--maxdepth", fmt.Sprint(deep)}, nil},
+		} {
+			args := append(append([]string{"--no-color", "-d", "deep.yaml", "-l", "log.yaml"}, v.args...), "report", "element-total", "x")
+			res := run.Exec(c.HR, args, run.ExecOpts{Dir: bd, Env: v.env, Timeout: 180 * time.Second})
+			c.Eval(1)
+			c.Count("very_large_depth_cases", 1)
+			c.Nontrivial("bigdepth", v.what)
+			wantFail := vi == 3
+			if res.TimedOut {
+				c.Inconclusive("very-large-depth", v.what+": watchdog")
+				continue
+			}
+			if (res.Exit != 0) != wantFail || (!wantFail && strings.Count(res.Out, "\n") != deep) {
+				c.Violation("maxdepth|wrong-value-in-effect", fmt.Sprintf("a book nested %d deep under %s: exit %d, %d rows, %s", deep, v.what, res.Exit, strings.Count(res.Out, "\n"), clip(res.Serr, 120)),
+					caseDoc{Args: args, Env: v.env, Note: fmt.Sprintf("deep.yaml: r000001 -> r000002 -> ... -> r%06d -> x", deep), Observed: map[string]any{"exit": res.Exit, "stderr": clip(res.Serr, 300), "rows": strings.Count(res.Out, "\n")}})
+			}
+		}
+	}
+
 	// (4) --no-database behaves as an empty book; a food.yaml decoy in the cwd must not be read
 	logText := "2021/01/24:\n  marker_db_default: 2\n  other: 1\n"
 	os.WriteFile(filepath.Join(e.dir, "nodb.yaml"), []byte(logText), 0o644)
